@@ -138,8 +138,10 @@ PROPS['C09'] = {
     'explanation': 'Proved for all texts/settings: orig_index of the k-th tract is k; every tract trs is the normalised TRS(twprge+sec).trs; the attribute dictionary the code derives for a tract is '
                    'exactly the decomposition of the tract\'s final .trs string (C09_attributes_decompose, from the dictionary-level idempotence proved for EVERY string in Proofs/C12/Full.v); every '
                    'tract trs is the error TRS or its raw string split into components that are at most case-normalised (C09_trs_strict); a non-matching non-empty string normalises to the error TRS. '
-                   'That the raw string never contains the undefined placeholder (it is built from digit and letter groups) is NOT a theorem: it, orig_desc/source/orig_index and the form of every '
-                   'tract are decided on each run by an independent decomposition oracle on rendered/damaged/soup texts x configurations. ' + _PLSS_TIE,
+                   'WELL-FORMED (C09_well_formed): for every text and setting every tract trs is the error TRS or <1-3 digits><n|s>/error-twp + <1-3 digits><e|w>/error-rge + <2 digits>/error-sec, '
+                   'never the undefined placeholder -- the raw twprge+sec string is free of the placeholder character because the groups of the regenerated twprge_regex cannot hold it (computed from '
+                   'the pattern by Engine/RegexStatic.group_chars) and sections are two-digit renderings of integers; the invariant is carried through finders, marker walk, chunk parser, '
+                   'sec_within and construct_tracts. orig_desc/source are decided on each run by an independent decomposition oracle on rendered/damaged/soup texts x configurations. ' + _PLSS_TIE,
 }
 PROPS['C10'] = {
     'group': 'plss', 'level': 'proof', 'build_timeout': 2400,
